@@ -3,6 +3,7 @@ import SynapModel.Drv.Data
 import SynapModel.Drv.Train
 import SynapModel.Drv.Modules
 import SynapModel.Drv.Optim
+import SynapModel.Drv.Layers
 /-!
 # `synapdrv` : line-protocol interpreter of the model
 
@@ -14,6 +15,7 @@ open Synap
 structure State where
   mods : Modules.World := Modules.World.empty
   opt : Drv.Optim.St := .none
+  bn : Drv.Layers.St := {}
 
 def step (st : State) (line : String) : State × String :=
   let toks := (line.trimAscii.toString.splitOn " ").filter (· ≠ "")
@@ -23,6 +25,7 @@ def step (st : State) (line : String) : State × String :=
   | "train" :: rest => (st, Drv.Train.run rest)
   | "mod" :: rest => let (w, o) := Drv.Modules.run st.mods rest; ({ st with mods := w }, o)
   | "opt" :: rest => let (w, o) := Drv.Optim.run st.opt rest; ({ st with opt := w }, o)
+  | "bn" :: rest => let (w, o) := Drv.Layers.run st.bn rest; ({ st with bn := w }, o)
   | "reset" :: _ => ({}, "ok")
   | _ => (st, "bad-op")
 
